@@ -187,7 +187,7 @@ func (s *Sim) mstep(kind string, dg *Dgram, f func()) {
 	ctx.gtpuFrom = s.gtpu.outLen()
 	ctx.reqFrom = len(s.kern.reqLog)
 	ctx.repFrom = len(s.kern.reports)
-	ctx.pre = s.srv.VerifState()
+	ctx.pre = s.peek()
 	ctx.preProj = s.projections()
 	ctx.preGroups = s.perioGroups()
 	ctx.preRules = make(map[RuleKey][]Attr, len(s.kern.rules))
@@ -200,7 +200,7 @@ func (s *Sim) mstep(kind string, dg *Dgram, f func()) {
 	ctx.GTPU = s.gtpu.outSince(ctx.gtpuFrom)
 	ctx.Reqs = append([]*NLReq(nil), s.kern.reqLog[ctx.reqFrom:]...)
 	ctx.KReps = append([]*KReport(nil), s.kern.reports[ctx.repFrom:]...)
-	ctx.post = s.srv.VerifState()
+	ctx.post = s.peek()
 	if s.repTotal != repBefore && kind == "deliver" {
 		ctx.Foreign = true
 	}
